@@ -116,13 +116,13 @@ def gen(rng: Any, prop: str, tier: str) -> dict[str, Any]:
             if fq in views:
                 continue
             cols = new_cols(fq)
-            comment = f"cm{step}" if rng.random() < 0.5 else None
+            comment = rng.choice([f"cm{step}", f"cm{step}", f"cm{step}", f"cm{step}", "", None, None, None, None])  # '' is a declared (empty) comment
             coldefs = ", ".join(f"{c} {t}{' NOT NULL' if nn else ''}" for c, t, nn in cols)
             ref = name if sc == "S1" and home and rng.random() < 0.5 else f"{db}.{sc}.{name}"
             if ref == name and sc != _cur_schema(ops, sid):
                 ref = f"{db}.{sc}.{name}"
             transient = "TRANSIENT " if rng.random() < 0.2 else ""  # a table property that is not a comment
-            sql = f"CREATE {'OR REPLACE ' if replace else ''}{transient}TABLE {ref} ({coldefs})" + (f" COMMENT = '{comment}'" if comment else "")
+            sql = f"CREATE {'OR REPLACE ' if replace else ''}{transient}TABLE {ref} ({coldefs})" + (f" COMMENT = '{comment}'" if comment is not None else "")
             ops.append({"s": sid, "k": "exec", "sql": sql, "ddl": "create_table", "fq": list(fq), "cols": cols, "comment": comment})
             tables[fq] = {"cols": cols, "comment": comment}
             last_cols[fq] = cols
@@ -503,7 +503,9 @@ def run(case: dict[str, Any]) -> dict[str, Any]:
             if violation:
                 sig = violation["signature"]
                 hazard_step = kind in ("alter_rename_col", "alter_rename_table", "ctas", "clone") or (kind == "create_table" and (" OR REPLACE " in op["sql"] or _recreated(case["ops"], op)))
-                if hazard_step and sig.endswith("/" + kind) and sig.split("/")[0] in ("information_schema.tables", "information_schema.columns", "describe-table", "select-star-description"):
+                # the known stale-comment finding is about re-creating WITHOUT a comment; a comment that was declared (even '') must show
+                declared = kind == "create_table" and op.get("comment") is not None and sig.startswith("information_schema.tables/comment")
+                if hazard_step and not declared and sig.endswith("/" + kind) and sig.split("/")[0] in ("information_schema.tables", "information_schema.columns", "describe-table", "select-star-description"):
                     violation["signature"] = f"stale-meta/{'replace-or-recreate' if kind == 'create_table' else kind}/" + "/".join(sig.split("/")[:-1])
                 violation["detail"] = {"after": {k: op.get(k) for k in ("s", "sql", "k")}, "step": n, **(violation["detail"] if isinstance(violation["detail"], dict) else {"info": violation["detail"]})}
                 break
